@@ -919,7 +919,7 @@ void apply_logic_net(bool const *inp, {BITS_TO_DTYPE[32]} *out, size_t len) {{
         """Forward pass with GroupSum (batch processing)."""
         batch_size_div_bits = math.ceil(x.shape[0] / self.num_bits)
         pad_len = batch_size_div_bits * self.num_bits - x.shape[0]
-        x = np.concatenate([x, np.zeros_like(x[:pad_len])])
+        x = np.concatenate([x, np.zeros((pad_len,) + x.shape[1:], dtype=x.dtype)])
 
         if verbose:
             print("x.shape", x.shape)
